@@ -60,6 +60,17 @@ func or(fs ...func(Ob) bool) func(Ob) bool {
 	}
 }
 
+func constructHas(subs ...string) func(Ob) bool {
+	return func(o Ob) bool {
+		for _, s := range subs {
+			if strings.Contains(o.Construct, s) {
+				return true
+			}
+		}
+		return false
+	}
+}
+
 func not(f func(Ob) bool) func(Ob) bool { return func(o Ob) bool { return !f(o) } }
 
 func cfgIs(c string) func(Ob) bool { return func(o Ob) bool { return o.Cfg == c } }
@@ -71,7 +82,7 @@ func init() {
 
 	props["C14"] = &PropSpec{ID: "C14",
 		Uses: []Use{
-			{Rule: "ERR-1", Filter: lib},
+			{Rule: "ERR-1", Filter: and(lib, not(constructHas("os.", "io/fs.")))},
 			{Rule: "ERR-2", Floors: map[string]int{"sink:defaultSpreaderSimple": 1, "sink:defaultGrowSpreaderSimple": 1, "sink:colorizeSpreaderSimple": 2, "sink:formattedSpreaderSimple": 2, "sink:formattedSpreaderPipeline": 1, "sink:colorizeSpreaderPipeline": 2, "sink:defaultSpreader": 2, "sink:jsonSpreader": 1}},
 			{Rule: "ERR-3", Floors: map[string]int{"scan": 5}},
 			{Rule: "EFF-8", Filter: role("writer")},
@@ -110,6 +121,11 @@ func init() {
 			{Rule: "CONC-4", Filter: role("access", "init")},
 			{Rule: "NIL-1", Filter: role("handover-chan")},
 			{Rule: "ERR-1", Filter: and(lib, pipelineFuncs)},
+			{Rule: "TAB-2", Filter: role("split", "table")},
+			{Rule: "SPLIT-1", Floors: map[string]int{"split": 3}},
+			{Rule: "SIB-6", Floors: map[string]int{"reuse": 5}},
+			{Rule: "SIB-5", Filter: funcHas("Pipeline")},
+			{Rule: "PAIR-3", Filter: funcHas("Pipeline")},
 		},
 		Decides:    "each root is written under one critical section held in the worker frame (no per-line locking writer); workers share no unsynchronised state and no state learnt from other roots (reported as known finding F10 for the shared Markdown parser); every parsed root is forwarded non-nil; an error in any stage reaches the result.",
 		NotDecided: "equality of massive and simple results as values; interleavings beyond lock/ownership discipline; agreement of splitter and parser on which lines are roots for '#' documents (root cause of the known finding).",
@@ -119,7 +135,6 @@ func init() {
 			{Rule: "EFF-4", Floors: map[string]int{"gate": 6, "validate": 2, "validate-call": 1, "encode": 12, "forward": 1}},
 			{Rule: "EFF-5", Floors: map[string]int{"path": 3, "target": 2}},
 			{Rule: "EFF-2"},
-			{Rule: "EFF-3", Filter: role("cli-gate")},
 		},
 		Decides:    "on all mkdir and verify routes (Markdown/root × simple/massive) name validation is switched on before growing, the stage runs only after growing succeeded, validatePath rejects '/' in names and invalid paths and is guarded by nothing but the validation flag, the grower is never the no-op on these routes, every filesystem path is filepath.Join(targetDir, node path) with targetDir fed from WithTargetDir, and creation happens only inside the mkdirer.",
 		NotDecided: "what path.Join / fs.ValidPath accept as values (a child named '.' or a '..' that path.Join resolves inside the tree passes validation), symlink escapes, OS behaviour.",
@@ -129,6 +144,10 @@ func init() {
 			{Rule: "EFF-1", Filter: role("entry-readonly", "cli-readonly")},
 			{Rule: "EFF-3", Floors: map[string]int{"gate": 4, "cli-gate": 2}},
 			{Rule: "EFF-2"},
+			{Rule: "TAB-6", Filter: and(role("factory", "factory-args", "grower-flag"), cfgIs("D")), Floors: map[string]int{"factory": 4, "grower-flag": 2}},
+			{Rule: "TAB-3", Filter: and(role("pred", "users", "ext"), cfgIs("D"))},
+			{Rule: "PAIR-5", Filter: cfgIs("D")},
+			{Rule: "SIB-3", Filter: and(role("report", "row"), cfgIs("D"), funcHas("olorize"))},
 		},
 		Decides:    "no filesystem-mutating call is reachable from Output* (the CLI's dry-run route), and on every Mkdir* route every path to a creating call crosses the false side of a branch on the dry-run option; the CLI's mkdir reaches creation only on the false side of --dry-run and rejects stray arguments first; constructors and other shared code contain no filesystem mutation.",
 		NotDecided: "numeric equality of the reported counts with what a real run creates; colour escape sequences; 'rejects iff the real run rejects' beyond sharing the validation gate (C07).",
@@ -139,6 +158,8 @@ func init() {
 			{Rule: "EFF-2", Floors: map[string]int{"site": 2}},
 			{Rule: "EFF-5", Filter: funcHas("Mkdirer")},
 			{Rule: "ERR-1", Filter: funcHas("Mkdirer", "mkdir")},
+			{Rule: "TAB-3", Filter: cfgIs("D"), Floors: map[string]int{"pred": 1, "users": 1, "kind": 1}},
+			{Rule: "SIB-4", Filter: funcHas("makeDirectoriesAndFiles")},
 		},
 		Decides:    "every creating call is dominated by the not-exists side of a test that stats every root and whose exists side yields the path-exists error; creation happens only in the mkdirer; created paths are Join(targetDir, node path); every filesystem error (MkdirAll, Create, Close) is returned.",
 		NotDecided: "the exact set of entries created for every forest, file-vs-directory choice as a value (see TAB-3 when claimed), OS refusals, pre-existing state other than roots.",
@@ -149,6 +170,8 @@ func init() {
 			{Rule: "EFF-4", Filter: and(role("gate", "encode"), funcHas("erify"))},
 			{Rule: "EFF-5", Filter: funcHas("Verifier")},
 			{Rule: "ERR-1", Filter: funcHas("Verifier", "verify")},
+			{Rule: "TAB-4", Floors: map[string]int{"verdict": 2, "sets": 2}},
+			{Rule: "SIB-4", Filter: funcHas("fillDirsMarkdown")},
 		},
 		Decides:    "verify never reaches a filesystem-mutating call; names are validated and paths assembled before verifying; looked-up paths are Join(targetDir, node path) like the mkdirer's; walk errors are returned.",
 		NotDecided: "soundness/completeness of the reported path sets for every directory state, the 'first root that differs' listing, map-iteration order of the report.",
@@ -173,8 +196,8 @@ func init() {
 			{Rule: "PAIR-2", Floors: map[string]int{"link": 2, "level": 1}},
 			{Rule: "GLOB-3", Filter: cfgIs("D"), Floors: map[string]int{"accumulate": 4}},
 			{Rule: "C01-NAME", Floors: map[string]int{"name": 5}},
-			{Rule: "TAB-6", Filter: and(role("factory", "factory-args", "grower-fields"), cfgIs("D"))},
-			{Rule: "ERR-1", Filter: and(scope("lib"), funcHas("Spreader", "treeSimple).output", "OutputFrom", "gtree.Output"))},
+			{Rule: "TAB-6", Filter: and(role("factory-args", "grower-formats"), cfgIs("D"))},
+			{Rule: "PARSE-1", Floors: map[string]int{"learn": 4}},
 		},
 		Decides:    "the line each printer writes is name+newline for a root and branch+space+name+newline otherwise; the connector/continuation strings are the last/intermediate ones selected by isLastOfHierarchy of the node / of the ancestor, appended / prepended, over ancestors from the parent up to but excluding the root; isLastOfHierarchy compares with the parent's last child; branch formats travel from the options to the grower fields of the same name; traversals are pre-order over children in order; equally named siblings are merged (lookup before insert) and links are bidirectional one level apart; the per-node cache is cleared before it is rebuilt; the item text loses at most one leading space; output errors are returned.",
 		NotDecided: "the parser's indentation arithmetic and unit inference (a wrong level number is invisible to these rules), the stack discipline that finds the nearest open node one level up, Unicode/bullet characters inside names, equality of the iterator and non-iterator output paths beyond SIB-5.",
@@ -186,6 +209,8 @@ func init() {
 			{Rule: "TAB-1", Floors: map[string]int{"map": 3, "blank": 2}},
 			{Rule: "TAB-2", Filter: role("split", "table")},
 			{Rule: "NIL-1", Filter: role("handover-return")},
+			{Rule: "SPLIT-1"},
+			{Rule: "PARSE-1"},
 		},
 		Decides:    "in all four line loops (simple, iterator, pipeline worker, tinywasm) every scanned line is classified; a parse error ends the call with that error; only whitespace-only lines map to 'skip'; a root opens a new stack and is recorded; an item before the first root hits a live nil-stack test; every other item is attached or the attach function reports failure which every caller turns into the format error of that line; every recorded root is handed over; the format error carries and prints the row.",
 		NotDecided: "the 'iff': which lines the parser considers malformed (indent not a multiple of the unit, tab/space mixing, empty text) is decided on run-time values; that the error text quotes the row byte-for-byte; the massive-mode splitter's grouping of lines into blocks beyond the symbol-table agreement.",
@@ -234,7 +259,6 @@ func init() {
 		Uses: []Use{
 			{Rule: "GLOB-1", Floors: map[string]int{"global": 8, "summary": 2}},
 			{Rule: "GLOB-3", Floors: map[string]int{"accumulate": 8}},
-			{Rule: "CONC-4", Filter: role("access")},
 		},
 		Decides:    "no value derived from mutable package-level state (a variable assigned outside init, written through, or handed to a mutating method — counters, caches, pools, maps) reaches a branch condition, an output/filesystem call or an exported result; the per-node branch/path cache is cleared before it is rebuilt on every route, so repeating an operation repeats its result.",
 		NotDecided: "concurrent Add on the same tree from several goroutines (unsupported by design), external global configuration (color.NoColor), state kept in objects the caller passes in.",
@@ -243,6 +267,7 @@ func init() {
 		Uses: []Use{
 			{Rule: "TAB-2", Floors: map[string]int{"table": 2, "loop": 1, "split": 2}},
 			{Rule: "TAB-1", Filter: role("blank")},
+			{Rule: "PARSE-1"},
 			{Rule: "SIB-5", Filter: func(o Ob) bool { return strings.Contains(o.Construct, "blank lines") || strings.Contains(o.Construct, "classified") }},
 		},
 		Decides:    "(thin claim) the three bullet symbols are all in the parser's table, all tried (no early break), and the massive-mode splitter consults the same table plus '#'; whitespace-only lines are skipped — not rejected, not turned into nodes — in every line loop.",
@@ -255,7 +280,6 @@ func init() {
 			{Rule: "SIB-4", Filter: cfgIs("W"), Floors: map[string]int{"traversal": 4}},
 			{Rule: "PAIR-5", Floors: map[string]int{"count": 4, "colorize": 4}},
 			{Rule: "TAB-6", Filter: or(cfgIs("W"), role("tags"))},
-			{Rule: "TAB-3", Filter: role("ext", "pred")},
 			{Rule: "C01-SEL", Filter: cfgIs("W")},
 			{Rule: "GLOB-3", Filter: cfgIs("W")},
 			{Rule: "ERR-1", Filter: cfgIs("W")},
